@@ -402,6 +402,16 @@ def render_rows(M, nt, npn, seq):
         if len(rows) != nt * npn:
             return 'table %d (%s) of the sequence %s written from one far-field pattern has %d rows, requested %d x %d' % (
                 k + 1, 'dBi' if what == 'db' else 'V/m', '+'.join(seq), len(rows), nt, npn)
+        # row i is labelled with the i-th requested direction (zenith fastest), also for descending steps (80, 70, ...)
+        i = 0
+        for a in range(npn):
+            for t in range(nt):
+                lab = rows[i].split()[:2]
+                want = (80.0 - 10.0 * t, 0.1 + 0.1 * a)
+                if abs(float(lab[0]) - want[0]) > 5e-6 * max(1.0, abs(want[0])) or abs(float(lab[1]) - want[1]) > 5e-6:
+                    return 'row %d of the %s table is labelled (zenith, azimuth) = (%s, %s), requested (%g, %g)' % (
+                        i + 1, 'dBi' if what == 'db' else 'V/m', lab[0], lab[1], want[0], want[1])
+                i += 1
     return None
 
 
